@@ -314,7 +314,7 @@ pub fn run(args: &Args) -> i32 {
     ev.assume("worker-side application (lib/src/server.rs) is not in this tier");
     ev.floor("state", "rejected_on_existing_target", 0.03);
     ev.floor("state", "rejected", 0.15);
-    let cases = args.cases(20_000, 500_000);
+    let cases = args.cases(200_000, 3_000_000);
     engine::run_pbt(&mut ev, args, "state", cases, strategy, check);
     ev.finish()
 }
